@@ -336,16 +336,29 @@ func runChild(run *vlib.Run, scratch string) {
 		var stderr bytes.Buffer
 		rc.Stdout, rc.Stderr = os.Stdout, &stderr
 		err := rc.Run()
+		crashed := false
 		if ee, ok := err.(*exec.ExitError); err != nil && (!ok || ee.ExitCode() != 66) {
-			fmt.Fprintln(os.Stderr, stderr.String())
-			vlib.Fatal("race pass failed: %v", err)
+			log := stderr.String()
+			at := strings.Index(log, "panic:")
+			if at < 0 {
+				at = strings.Index(log, "fatal error:")
+			}
+			if at < 0 {
+				fmt.Fprintln(os.Stderr, log)
+				vlib.Fatal("race pass failed: %v", err)
+			}
+			crashed = true
+			run.Violation("crash-free-running", "`templ generate` with 8 workers crashed in the free-running pass: "+firstLines(log[at:], 20), map[string]any{"report": firstLines(log[at:], 60)})
 		}
 		var r map[string]any
 		b, rerr := os.ReadFile(filepath.Join(scratch, "race.json"))
-		if rerr != nil {
+		if rerr != nil && !crashed {
 			vlib.Fatal("race pass result missing")
 		}
 		json.Unmarshal(b, &r)
+		if r == nil {
+			r = map[string]any{}
+		}
 		r["race_detector_reports"] = strings.Count(stderr.String(), "WARNING: DATA RACE")
 		if strings.Contains(stderr.String(), "WARNING: DATA RACE") {
 			run.Violation("data-race", "the race detector reported a data race in `templ generate` with 8 workers: "+firstLines(stderr.String(), 25), map[string]any{"report": firstLines(stderr.String(), 80)})
